@@ -1146,6 +1146,9 @@ func defaultLimitCase(c *vh.Case) {
 	retained := func() (int, bool) {
 		sum := 0
 		for k := range logs {
+			if len(logs[k]) == 0 {
+				continue // nothing was ever appended to this stream: the store does not know it
+			}
 			first := -1
 			for idx := -1; idx < len(logs[k]); idx++ {
 				n, purged, bad := 0, false, false
